@@ -77,19 +77,33 @@ impl StringClass for UserClass {
 }
 
 pub const USER_SYMS: [u32; 5] = [0x6C, 0xB7, 0x94D, 0x200D, 0x10400];
+/// second symbol set: the rules that look at the WHOLE label (both digit families, katakana dot)
+pub const USER_SYMS_2: [u32; 5] = [0x660, 0x6F0, 0x30FB, 0x30A2, 0x61];
 
-pub fn check_user(env: &Env, assign: &[DP], l: &[u32], st: &mut Stats) {
-    check_user_variant(env, assign, l, false, st);
-    // labels with two or more contextual code points also through the re-entrant class
-    let nctx = l.iter().filter(|c| **c == 0xB7 || **c == 0x200D).count();
-    if nctx >= 2 {
-        check_user_variant(env, assign, l, true, st);
+fn user_syms(set: u8) -> &'static [u32; 5] {
+    if set == 0 {
+        &USER_SYMS
+    } else {
+        &USER_SYMS_2
     }
 }
 
-pub fn check_user_variant(env: &Env, assign: &[DP], l: &[u32], reentrant: bool, st: &mut Stats) {
+pub fn check_user(env: &Env, assign: &[DP], l: &[u32], st: &mut Stats) {
+    check_user_set(env, 0, assign, l, st)
+}
+
+pub fn check_user_set(env: &Env, set: u8, assign: &[DP], l: &[u32], st: &mut Stats) {
+    check_user_variant(env, set, assign, l, false, st);
+    // labels with two or more contextual code points also through the re-entrant class
+    let nctx = l.iter().filter(|c| **c == 0xB7 || **c == 0x200D).count();
+    if nctx >= 2 {
+        check_user_variant(env, set, assign, l, true, st);
+    }
+}
+
+pub fn check_user_variant(env: &Env, set: u8, assign: &[DP], l: &[u32], reentrant: bool, st: &mut Stats) {
     let uc = UserClass {
-        map: USER_SYMS.iter().copied().zip(assign.iter().copied()).collect(),
+        map: user_syms(set).iter().copied().zip(assign.iter().copied()).collect(),
         reentrant,
     };
     let s = from_cps(l);
@@ -108,7 +122,7 @@ pub fn check_user_variant(env: &Env, assign: &[DP], l: &[u32], reentrant: bool, 
     if !judge(&exp, &got) {
         st.violation(
             if matches!(got, OutU::Panic(_)) { "panic" } else if reentrant { "user_class_reentrant" } else { "user_class" },
-            || Case::new(if reentrant { "user_reentrant" } else { "user" }).cps(l).x(json!(assign.iter().map(|d| DP::ALL.iter().position(|x| x == d).unwrap()).collect::<Vec<_>>())),
+            || Case::new(if reentrant { "user_reentrant" } else { "user" }).cps(l).n(set as u64).x(json!(assign.iter().map(|d| DP::ALL.iter().position(|x| x == d).unwrap()).collect::<Vec<_>>())),
             show_exp(&exp),
             format!("{:?}", got),
         );
@@ -242,11 +256,58 @@ pub fn run(env: &Env, run: &Run) -> (Stats, Coverage) {
     for s in shards {
         st.merge(s);
     }
+    // ... and over the second symbol set (whole-label rules: both digit families, katakana dot)
+    {
+        let syms2 = &USER_SYMS_2[..k];
+        let mut labels2: Vec<Vec<u32>> = vec![vec![]];
+        let mut frontier: Vec<Vec<u32>> = vec![vec![]];
+        for _ in 0..ln {
+            let mut next = Vec::new();
+            for l in &frontier {
+                for s in syms2 {
+                    let mut m = l.clone();
+                    m.push(*s);
+                    next.push(m);
+                }
+            }
+            labels2.extend(next.iter().cloned());
+            frontier = next;
+        }
+        let shards: Vec<Stats> = (0..nassign)
+            .into_par_iter()
+            .fold(Stats::default, |mut st, mut idx| {
+                let mut assign = vec![DP::Unassigned; 5];
+                for slot in assign.iter_mut().take(k) {
+                    *slot = DP::ALL[(idx % 7) as usize];
+                    idx /= 7;
+                }
+                st.states += 1;
+                for l in &labels2 {
+                    st.transitions += 1;
+                    check_user_set(env, 1, &assign, l, &mut st);
+                }
+                st
+            })
+            .collect();
+        for s in shards {
+            st.merge(s);
+        }
+    }
+    // allows over the joining alphabet, long enough for two ZWNJ with their transparent runs
+    {
+        let ja: Vec<char> = [0x626u32, 0x5BF, 0x200C, 0x61, 0x629].iter().map(|c| char::from_u32(*c).unwrap()).collect();
+        st.merge(strtree(&ja, run.tier.pick(8, 9), |chars, s, st| {
+            let l: Vec<u32> = chars.iter().map(|c| *c as u32).collect();
+            for class in [Class::Identifier, Class::Freeform] {
+                check_std(env, class, &l, s, st);
+            }
+        }));
+    }
     st.sample(json!({"class": "IdentifierClass", "label": ["U+00E9", "U+10428", "U+0020"], "expected": "BadCodepoint{cp:0x20, position:2 (code points, not bytes), SpecClassDis}"}));
     st.sample(json!({"class": "FreeformClass", "label": ["l", "U+00B7", "l", "U+0378"], "expected": "BadCodepoint{cp:0x378, position:3, Unassigned} - the satisfied middle dot does not stop the scan"}));
     st.sample(json!({"class": "user class {l:ContextO, U+00B7:PValid}", "label": ["l"], "expected": "an error naming 'l' at position 0 (no RFC 5892 rule exists for it)"}));
     let cov = Coverage {
-        rule: format!("standard classes: every label of length <= {} over a 27-symbol alphabet holding every derived-property value x every context-rule family x every enabling neighbour x UTF-8 lengths 1-4, plus pumped runs and ASCII block strings, every scalar value in 17 label templates and next to each of its 16 other-plane aliases (incl. every role a context rule inspects), both classes; user classes: all 7^{} assignments of derived-property values to {:?} x all {} labels of length <= {} (labels with two or more contextual code points also through a re-entrant class whose classifier itself calls allows); oracle = first-offender semantics with RFC 5892 rules (reference), classification taken from the class's own get_value_from_char; non-trivial = label holds a contextual code point or is rejected at index >= 1 behind a multi-byte character", n, k, syms.iter().map(|c| format!("U+{:04X}", c)).collect::<Vec<_>>(), labels.len(), ln),
+        rule: format!("standard classes: every label of length <= {} over a 27-symbol alphabet holding every derived-property value x every context-rule family x every enabling neighbour x UTF-8 lengths 1-4, plus pumped runs and ASCII block strings, every scalar value in 17 label templates and next to each of its 16 other-plane aliases (incl. every role a context rule inspects), both classes; every label of length <= 8 / 9 over {{dual-joining, transparent, ZWNJ, a, right-joining}} through both classes; user classes: all 7^{} assignments of derived-property values to {:?} (and to a second symbol set: both digit families, katakana dot, katakana, a) x all {} labels of length <= {} (labels with two or more contextual code points also through a re-entrant class whose classifier itself calls allows); oracle = first-offender semantics with RFC 5892 rules (reference), classification taken from the class's own get_value_from_char; non-trivial = label holds a contextual code point or is rejected at index >= 1 behind a multi-byte character", n, k, syms.iter().map(|c| format!("U+{:04X}", c)).collect::<Vec<_>>(), labels.len(), ln),
         alphabet: json!(sigma.iter().map(|c| format!("U+{:04X}", *c as u32)).collect::<Vec<_>>()),
         bound_completed: format!("tree length <= {} ({} labels x 2 classes); sweep 1,112,064 x 15 templates x 2 classes; user classes {} assignments x {} labels", n, tree_size(sigma.len(), n), nassign, labels.len()),
         exhaustive: false,
@@ -269,7 +330,7 @@ pub fn replay(env: &Env, case: &Case) -> Vec<Violation> {
             if let (Some(l), Some(a)) = (case.strs.first(), case.extra.as_array()) {
                 let assign: Vec<DP> = a.iter().filter_map(|x| x.as_u64().map(|i| DP::ALL[i as usize % 7])).collect();
                 if assign.len() == 5 {
-                    check_user_variant(env, &assign, l, case.op == "user_reentrant", &mut st);
+                    check_user_variant(env, case.nums.first().copied().unwrap_or(0) as u8, &assign, l, case.op == "user_reentrant", &mut st);
                 }
             }
         }
